@@ -381,7 +381,9 @@ func c12Builders(c *Ctx, prog *load.Program) {
 		args []string
 		want *sym.Term
 	}
-	seq := func(parts ...*sym.Term) *sym.Term { return sym.App(sym.Bytes, "der_tlv", sym.ConstI(0x30), absint.CatBytes(parts...)) }
+	seq := func(parts ...*sym.Term) *sym.Term {
+		return sym.App(sym.Bytes, "der_tlv", sym.ConstI(0x30), absint.CatBytes(parts...))
+	}
 	derInt := func(b *sym.Term) *sym.Term { return sym.App(sym.Bytes, "der_int", sym.App(sym.Int, "os2ip", b)) }
 	vT := sym.Sym(sym.Int, "v")
 	vb := sym.App(sym.Bytes, "byte", vT)
